@@ -441,6 +441,9 @@ func Run(opts *Options) (int, error) {
 							patternCache = make(map[string]*Pattern)
 							cache.Clear()
 							inputRevision.bumpMinor()
+							// If we keep the snapshot we have (reload-sync), it is
+							// searched again as well
+							snapshotRevision.bumpMinor()
 						}
 						if command != nil {
 							useSnapshot = val.sync
